@@ -2,9 +2,10 @@ import KawinV.Proto
 import KawinV.Gen.C15Shape
 import KawinV.Model.ShapeWrap
 import KawinV.Model.Bisect
+import KawinV.Model.ShapeFactorState
 /-! driver verbs for C15: generated shape formulas, wrapper model, bisection model (Float instance) -/
 namespace KawinV.Drv.C15
-open KawinV.Proto KawinV.Gen.C15 KawinV.Shape KawinV.Bisect
+open KawinV.Proto KawinV.Gen.C15 KawinV.Shape KawinV.Bisect KawinV.SFState
 
 structure ShapeFns where
   radii : Float → List Float
@@ -87,6 +88,51 @@ def rscalar : P String := do
   let s ← shape; let ar ← flt; let rs ← flt
   pure (fout (findRcritScalar rs (fun _ => wrapScalar s.thMin s.th ar)))
 
+/-- an aspect-ratio function of the radius: (kind, p0, p1, p2) of `arFun` -/
+abbrev Fn := Nat × Float × Float × Float
+
+def evalFn (f : Fn) (r : Float) : Float := arFun f.1 f.2.1 f.2.2.1 f.2.2.2 r
+
+/-- `0 c` scalar | `1 kind p0 p1 p2` function -/
+def spec : P (ArSpec Float Fn) := do
+  let t ← nat
+  match t with
+  | 0 => do let c ← flt; pure (.scalar c)
+  | 1 => do let k ← nat; let p0 ← flt; let p1 ← flt; let p2 ← flt; pure (.func (k, p0, p1, p2))
+  | _ => failure
+
+/-- `0 spec` setAspectRatio | `1 shape spec` setPrecipitateShape / set…Shape | `2` setSpherical -/
+def op : P (Op Float Fn) := do
+  let t ← nat
+  match t with
+  | 0 => do let s ← spec; pure (.setAspectRatio s)
+  | 1 => do let sh ← nat; let s ← spec; pure (.setShape sh s)
+  | 2 => pure .setSpherical
+  | _ => failure
+
+def thermoOf (sh : Nat) (ar : Float) : Float :=
+  match shapeOf sh with
+  | some s => wrapScalar s.thMin s.th ar
+  | none => 1.0
+
+/-- c15.hist tol Rs Rmax ctor(0 shape spec | 1) ops → search fallback iters r shape
+the PUBLIC findRcrit of the object reached through a history of setter calls -/
+def hist : P String := do
+  let tol ← flt; let rs ← flt; let rmax ← flt
+  let c ← nat
+  let st0 : Option (List (Op Float Fn) → St Float Fn) ← (match c with
+    | 0 => do let sh ← nat; let s ← spec; pure (some (run sh s))
+    | 1 => pure (some runSpherical)
+    | _ => pure none)
+  let ops ← lst op
+  match st0 with
+  | none => failure
+  | some mk =>
+    let st := mk ops
+    let o := findRcritPublic evalFn thermoOf tol rs rmax st
+    let sk := match st.search with | .closedForm => "S" | .bisection => "B"
+    pure s!"{sk} {bstr o.fallback} {o.iters} {fout o.r} {st.shape}"
+
 def handle (verb : String) : Option (P String) :=
   match verb with
   | "c15.gen" => some gen
@@ -95,6 +141,7 @@ def handle (verb : String) : Option (P String) :=
   | "c15.radii" => some radii
   | "c15.bisect" => some bisect
   | "c15.rscalar" => some rscalar
+  | "c15.hist" => some hist
   | _ => none
 
 end KawinV.Drv.C15
